@@ -3,8 +3,11 @@ package main
 import (
 	"encoding/binary"
 	"encoding/json"
+	"errors"
+	"io"
 	"math/rand"
 	"os"
+	"strconv"
 
 	"github.com/wrgl/wrgl/pkg/index"
 )
@@ -42,14 +45,67 @@ func readHSFile(path string) (*c20File, error) {
 	return f, nil
 }
 
+// c20FaultFile is the file handed to the hash set: an *os.File that can be armed to fail ONE read.
+// The fault is a transient read error in the look-up phase of an operation: the n-th Read that is
+// positioned inside the fan-out table (file offset < 1024) after arming fails, provided the
+// operation has written nothing yet (the first Write disarms it). So a fired fault always means:
+// the operation failed before its first write, the file is byte for byte what it was. (Reads of the
+// entry region are left alone: insertIndex turns an error there into a panic inside sort.Search.)
+type c20FaultFile struct {
+	f      *os.File
+	pos    int64
+	armed  int // fail the armed-th fan-out read from now; 0 = not armed
+	fired  bool
+	writes int // writes since arming
+}
+
+var c20ErrInjected = errors.New("injected read error")
+
+func (w *c20FaultFile) arm(n int) { w.armed, w.fired, w.writes = n, false, 0 }
+func (w *c20FaultFile) disarm() (fired bool, writes int) {
+	fired, writes = w.fired, w.writes
+	w.armed, w.fired, w.writes = 0, false, 0
+	return
+}
+func (w *c20FaultFile) Seek(off int64, whence int) (int64, error) {
+	p, err := w.f.Seek(off, whence)
+	if err == nil {
+		w.pos = p
+	}
+	return p, err
+}
+func (w *c20FaultFile) Read(b []byte) (int, error) {
+	if w.armed > 0 && w.writes == 0 && w.pos < 1024 {
+		w.armed--
+		if w.armed == 0 {
+			w.fired = true
+			return 0, c20ErrInjected
+		}
+	}
+	n, err := w.f.Read(b)
+	w.pos += int64(n)
+	return n, err
+}
+func (w *c20FaultFile) Write(b []byte) (int, error) {
+	w.writes++
+	n, err := w.f.Write(b)
+	w.pos += int64(n)
+	return n, err
+}
+func (w *c20FaultFile) Close() error { return w.f.Close() }
+
+var _ index.ReadWriteSeekCloser = (*c20FaultFile)(nil)
+var _ io.ReadWriteSeeker = (*c20FaultFile)(nil)
+
 func c20Run(in *c20Input) Res {
 	dir := privateTmp()
-	f, err := os.CreateTemp(dir, "hashset_")
+	f0, err := os.CreateTemp(dir, "hashset_")
 	if err != nil {
 		panic(err)
 	}
-	path := f.Name()
+	path := f0.Name()
 	defer os.Remove(path)
+	f := &c20FaultFile{f: f0}
 	return Guard(func() Res {
 		hs, err := index.NewHashSet(f, in.BatchSize)
 		if err != nil {
@@ -74,6 +130,40 @@ func c20Run(in *c20Input) Res {
 					}
 					out = append(out, img)
 				}
+			case "flushfault":
+				// ["flushfault", n]: a Flush during which the n-th fan-out read fails once, if it
+				// comes before the flush's first write (c20FaultFile). When the fault fired the
+				// record says so, with the number of writes the failed flush had made (always 0)
+				// and what Flush returned; otherwise the record is that of a plain flush.
+				f.arm(c20Atoi(op[1]))
+				ferr := hs.Flush()
+				fired, writes := f.disarm()
+				var res interface{} = "err"
+				if ferr == nil {
+					img, err := readHSFile(path)
+					if err != nil {
+						return Err("readfile")
+					}
+					res = img
+				}
+				if fired {
+					out = append(out, map[string]interface{}{"fired": true, "writes": writes, "res": res})
+				} else {
+					out = append(out, res)
+				}
+			case "addfault":
+				// ["addfault", h]: an Add whose first read fails (always a fan-out read)
+				f.arm(1)
+				aerr := hs.Add(unhx(op[1]))
+				fired, _ := f.disarm()
+				if !fired {
+					return Err("fault-not-fired")
+				}
+				if aerr != nil {
+					out = append(out, "err")
+				} else {
+					out = append(out, "ok")
+				}
 			case "has":
 				ok, err := hs.Has(unhx(op[1]))
 				if err != nil {
@@ -89,7 +179,8 @@ func c20Run(in *c20Input) Res {
 				if err != nil {
 					return Err("reopen")
 				}
-				hs, err = index.NewHashSet(f2, in.BatchSize)
+				f = &c20FaultFile{f: f2}
+				hs, err = index.NewHashSet(f, in.BatchSize)
 				if err != nil {
 					return Err("new")
 				}
@@ -208,12 +299,232 @@ func c20Nontrivial(in *c20Input) bool {
 	return false
 }
 
+func c20Atoi(s string) int { n, _ := strconv.Atoi(s); return n }
+
+// genC20Fault: a sequence of genC20 in which flushes and adds meet a transient read error and are
+// retried: ["flushfault", n] in front of a flush of the sequence (which is then the retry), and
+// ["addfault", h] in front of an add of the same hash. Batch size 1 (nothing is ever pending at a
+// flush) becomes the default.
+func genC20Fault(r *rand.Rand, thorough bool) *c20Input {
+	in := genC20(r, thorough)
+	if in.BatchSize == 1 {
+		in.BatchSize = 0
+	}
+	ops := [][]string{}
+	pending := 0
+	for _, op := range in.Ops {
+		switch op[0] {
+		case "add":
+			if r.Intn(8) == 0 {
+				ops = append(ops, []string{"addfault", op[1]})
+			}
+			pending++
+		case "flush":
+			if pending > 0 && r.Intn(3) != 0 {
+				// any fan-out read of the look-ups (two per pending hash at most), now and then one too far
+				n := 1 + r.Intn(2*pending+1)
+				if r.Intn(3) == 0 {
+					n = 1 + r.Intn(3)
+				}
+				ops = append(ops, []string{"flushfault", itoa(n)})
+				if r.Intn(4) == 0 {
+					ops = append(ops, []string{"flushfault", itoa(1 + r.Intn(3))})
+				}
+			}
+			pending = 0
+		}
+		ops = append(ops, op)
+	}
+	in.Ops = ops
+	return in
+}
+
+// ---------------------------------------------------------------------------------------------
+// "bulk": batches far larger than the default one (batchSize is a caller-supplied uint32), with
+// tens of thousands of hashes in one fan-out bucket in a single flush — counts that no longer fit
+// 16 bits. The hashes are named by an index i (c20BulkHash) so that the input stays small; the Lean
+// driver expands them the same way (Driver/C20.lean, bulkHash) and judges the case by the
+// property's own words: after a flush the file holds exactly the added hashes, sorted, with a
+// consistent fan-out table; Has answers membership; a reopened handle reports the same.
+// Steps: ["adds", lo, n, mul] adds hash(lo + (j*mul mod n)) for j = 0..n-1 (mul coprime to n: a
+// permutation of lo..lo+n-1), ["flush"], ["reopen"], ["has", i].
+// ---------------------------------------------------------------------------------------------
+
+type c20BulkInput struct {
+	BatchSize uint32  `json:"batchSize"`
+	First     int     `json:"first"`
+	Steps     [][]int `json:"steps"` // [kind, args...]: 0 adds lo n mul, 1 flush, 2 reopen, 3 has i
+}
+
+// c20BulkHash: first byte = first + (i >> 20) mod 256 — indices below 2^20 share the first byte —
+// then the low 20 bits big-endian in bytes 1..3, and two bytes depending on i further back.
+func c20BulkHash(first, i int) []byte {
+	h := make([]byte, 16)
+	h[0] = byte(first + (i >> 20))
+	lo := i & 0xfffff
+	h[1], h[2], h[3] = byte(lo>>16), byte(lo>>8), byte(lo)
+	h[9] = byte(i * 7)
+	h[15] = byte(i >> 3)
+	return h
+}
+
+func c20Gcd(a, b int) int {
+	for b != 0 {
+		a, b = b, a%b
+	}
+	return a
+}
+
+func genC20Bulk(r *rand.Rand) *c20BulkInput {
+	in := &c20BulkInput{First: []int{0x00, 0xff, 0x01, 0x7f, 0x80, 0xfe, r.Intn(256)}[r.Intn(7)]}
+	n := 65536 + 1 + r.Intn(300) // one more than 16 bits hold, and a little above
+	if r.Intn(4) == 0 {
+		n = 65536 // exactly 2^16
+	}
+	in.BatchSize = []uint32{1 << 17, 100000, uint32(n + 40), uint32(n + 12)}[r.Intn(4)]
+	perm := func(lo, n int) []int {
+		mul := 1
+		if n > 2 {
+			for {
+				mul = 1 + r.Intn(n-1)
+				if c20Gcd(mul, n) == 1 {
+					break
+				}
+			}
+		}
+		return []int{0, lo, n, mul}
+	}
+	other := []int{1 << 20, 2 << 20, 128 << 20, 255 << 20} // first bytes first+1, first+2, first+128, first-1
+	probes := []int{0, 1, n - 1, n, n + 1, 65535, 65536, 4095, 4096}
+	if r.Intn(2) == 0 {
+		// some entries are in the file already (flushed on their own): the big batch lands between them
+		pre := 1 + r.Intn(40)
+		in.Steps = append(in.Steps, perm(n/2, pre), perm(other[0]+3, 1+r.Intn(3)), []int{1})
+	}
+	in.Steps = append(in.Steps, perm(0, n))
+	for _, o := range other {
+		if r.Intn(2) == 0 {
+			k := 1 + r.Intn(4)
+			in.Steps = append(in.Steps, perm(o, k))
+			probes = append(probes, o, o+k-1, o+k)
+		} else {
+			probes = append(probes, o)
+		}
+	}
+	if r.Intn(3) == 0 {
+		in.Steps = append(in.Steps, perm(n/3, 5)) // repeats of hashes pending in the same batch
+	}
+	in.Steps = append(in.Steps, []int{1})
+	for i := 0; i < 12; i++ {
+		probes = append(probes, r.Intn(n+50))
+	}
+	for _, p := range probes {
+		in.Steps = append(in.Steps, []int{3, p})
+	}
+	in.Steps = append(in.Steps, []int{2})
+	for _, p := range probes {
+		in.Steps = append(in.Steps, []int{3, p})
+	}
+	if r.Intn(2) == 0 {
+		// a second, small batch on the reopened file, then the sweep again
+		in.Steps = append(in.Steps, perm(n+7, 3), []int{1})
+		for _, p := range probes {
+			in.Steps = append(in.Steps, []int{3, p})
+		}
+		in.Steps = append(in.Steps, []int{3, n + 8})
+	}
+	return in
+}
+
+func c20RunBulk(in *c20BulkInput) Res {
+	dir := privateTmp()
+	f, err := os.CreateTemp(dir, "hashset_")
+	if err != nil {
+		panic(err)
+	}
+	path := f.Name()
+	defer os.Remove(path)
+	return Guard(func() Res {
+		hs, err := index.NewHashSet(f, in.BatchSize)
+		if err != nil {
+			return Err("new")
+		}
+		out := []interface{}{}
+		for _, st := range in.Steps {
+			switch st[0] {
+			case 0:
+				lo, n, mul := st[1], st[2], st[3]
+				var res interface{} = "ok"
+				for j := 0; j < n; j++ {
+					if err := hs.Add(c20BulkHash(in.First, lo+(j*mul)%n)); err != nil {
+						res = "err"
+						break
+					}
+				}
+				out = append(out, res)
+			case 1:
+				if err := hs.Flush(); err != nil {
+					out = append(out, "err")
+				} else {
+					img, err := readHSFile(path)
+					if err != nil {
+						return Err("readfile")
+					}
+					out = append(out, img)
+				}
+			case 2:
+				if err := hs.Close(); err != nil {
+					return Err("close")
+				}
+				f2, err := os.OpenFile(path, os.O_RDWR, 0600)
+				if err != nil {
+					return Err("reopen")
+				}
+				hs, err = index.NewHashSet(f2, in.BatchSize)
+				if err != nil {
+					return Err("new")
+				}
+				out = append(out, hs.Len())
+			case 3:
+				ok, err := hs.Has(c20BulkHash(in.First, st[1]))
+				if err != nil {
+					out = append(out, "err")
+				} else {
+					out = append(out, ok)
+				}
+			}
+		}
+		hs.Close()
+		return Ok(out)
+	})
+}
+
 func runC20(ctx *Ctx) {
+	// one case in 400: a batch of more than 65535 hashes of one fan-out bucket ("bulk")
+	if ctx.Idx%400 == 137 {
+		in := genC20Bulk(ctx.R)
+		ctx.Emit("bulk", in, c20RunBulk(in), true, "bulk")
+		return
+	}
+	// one case in 5: flushes and adds that meet a transient read error and are retried
+	if ctx.Idx%5 == 3 {
+		in := genC20Fault(ctx.R, ctx.Thorough())
+		ctx.Emit("ops", in, c20Run(in), c20Nontrivial(in), "read-fault")
+		return
+	}
 	in := genC20(ctx.R, ctx.Thorough())
 	ctx.Emit("ops", in, c20Run(in), c20Nontrivial(in))
 }
 
 func corpusC20(ctx *Ctx, op string, raw json.RawMessage) {
+	if op == "bulk" {
+		var in c20BulkInput
+		if err := json.Unmarshal(raw, &in); err != nil {
+			panic(err)
+		}
+		ctx.Emit("bulk", &in, c20RunBulk(&in), true, "corpus")
+		return
+	}
 	var in c20Input
 	if err := json.Unmarshal(raw, &in); err != nil {
 		panic(err)
